@@ -935,6 +935,11 @@ where
                     return Err(ActorErr::Cancelled);
                 }
             }
+        } else {
+            // A kill observed by the message loop ends the actor like a kill observed around
+            // `post_start`/`post_stop`: the supervisor gets `ActorTerminated(_, None, "killed")`,
+            // the last state is only reported for a clean (not signaled) shutdown.
+            return Err(ActorErr::Cancelled);
         }
 
         Ok(exit_reason)
